@@ -321,6 +321,10 @@ func evalC18(op string, args []string) string {
 	// flag handling (-package, -ref, -ignore, the dictionary argument) is part of "the repository's own generator"
 	if exe, err := os.Executable(); err == nil {
 		tool := filepath.Join(filepath.Dir(exe), "radius-dict-gen")
+		if _, err := os.Stat(filepath.Join(filepath.Dir(exe), "tools-failed")); err == nil {
+			// ./check could not build the tree's own generator commands
+			return "differs the-tree's-generator-commands-do-not-build"
+		}
 		if _, err := os.Stat(tool); err == nil {
 			var targs []string
 			seen := false
@@ -426,6 +430,9 @@ func c18RegenDebug(root, dir string, fields []string) string {
 	// write a file that declares the same IncludedDictionary as the checked-in debug/generated.go
 	if exe, err := os.Executable(); err == nil {
 		tool := filepath.Join(filepath.Dir(exe), "debug-generate")
+		if _, err := os.Stat(filepath.Join(filepath.Dir(exe), "tools-failed")); err == nil {
+			return "differs the-tree's-generator-commands-do-not-build"
+		}
 		if _, err := os.Stat(tool); err == nil {
 			var local []string
 			for _, f := range files {
